@@ -689,12 +689,12 @@ fn val(rng: &mut Rng) -> Vec<u8> {
     }
 }
 
-struct Ctx {
-    fixed: bool,
+pub(crate) struct Ctx {
+    pub(crate) fixed: bool,
 }
 
 impl Ctx {
-    fn gen(&self, k: &[u8], n: usize) -> usize {
+    pub(crate) fn gen(&self, k: &[u8], n: usize) -> usize {
         match std::str::from_utf8(k) {
             Ok(x) if !self.fixed => h_str(x, n),
             _ => h_bytes(k, n),
@@ -1108,6 +1108,12 @@ pub struct Pending {
     /// the 1-shard vs N-shard difference observed on the real code, if any
     diverged: Option<(String, String, serde_json::Value)>,
     shards: usize,
+}
+
+impl Pending {
+    pub(crate) fn new(start: usize, end: usize, class: &str, listed: Option<String>, diverged: Option<(String, String, serde_json::Value)>, shards: usize) -> Pending {
+        Pending { start, end, class: class.to_string(), listed, diverged, shards }
+    }
 }
 
 /// The CAUSE of a listed finding, looked for in the case itself (never a symptom):
@@ -1630,6 +1636,12 @@ pub fn run(a: &Args) {
         for c in corpus(&ctx) {
             run_case(&mut out, &mut pend, &ctx, &c).await;
         }
+        // the sharding model over the M7 reference executor: fixed timed streams, every run
+        for (label, steps) in crate::c03m7::corpus() {
+            for n in [2usize, 4, 8] {
+                crate::c03m7::run_steps(&mut out, &mut pend, &ctx, n, label, &steps).await;
+            }
+        }
         crate::api::report(&mut out);
         crate::routes::run(&mut out).await;
         let carries = detect_carries(&ctx).await;
@@ -1661,6 +1673,11 @@ pub fn run(a: &Args) {
                 random_case(&ctx, &mut r)
             };
             run_case(&mut out, &mut pend, &ctx, &c).await;
+            if r.chance(1, 5) {
+                let n = *r.pick(&[2usize, 3, 4, 8, 16]);
+                let steps = crate::c03m7::random_steps(&ctx, &mut r, n);
+                crate::c03m7::run_steps(&mut out, &mut pend, &ctx, n, "", &steps).await;
+            }
             if r.chance(1, 6) {
                 if r.chance(1, 3) {
                     let (tn, tops) = timed_random(&ctx, &mut r);
